@@ -45,7 +45,7 @@ class Check:
     scenario_wall_limit = 300.0
     shrink_runs = 200
     rule = ('scenario = generated project (top + subproject) with install_data (rename, install_mode, install_tag, relative/absolute/default '
-            'install_dir), install_headers(subdir), install_man, install_subdir (nested tree, exclude_files/exclude_directories, '
+            'install_dir, symbolic links among the sources with follow_symlinks), install_headers(subdir), install_man, install_subdir (nested tree, exclude_files/exclude_directories, '
             'strip_directory), install_emptydir, install_symlink, installed custom_target outputs and compiled build targets; names with spaces and non-ASCII; prefix, install_umask incl. preserve; '
             '+ a history of install / reinstall / --only-changed / --dry-run / --tags / --skip-subprojects / uninstall steps with '
             'simulator-chosen ambient umask, mtime skew (source older/equal/newer than the installed copy), pre-populated DESTDIR and '
@@ -89,6 +89,13 @@ class Check:
                 rule['dir'] = rng.choice([None, f'share/d{i}', 'share/common', f'/etc/conf {i}', '/var/lib/x', 'libexec/y', f'share/ünï{i}'])
                 if rng.random() < 0.25 and not rule.get('preserve_path'):
                     rule['rename'] = [f'renamed{i}_{k}' + rng.choice(['', '.cfg', ' with space', ' trailing ']) for k in range(n)]
+                if not rule.get('preserve_path') and not rule.get('rename') and rng.random() < 0.2:
+                    # a symbolic link among the sources: to a sibling that is installed next to it, or to a file outside
+                    # DESTDIR (of the user's); follow_symlinks: false installs it as a link, otherwise its target is copied
+                    rule['follow'] = rng.choice([False, False, False, None, True])
+                    to = rng.choice(['sibling', 'sibling', 'victim']) if rule['follow'] is False else 'sibling'
+                    rule['files'].append({'name': f'r{i}_lnk', 'link_to': os.path.basename(rule['files'][0]['name']) if to == 'sibling' else '@VICTIM@/victim.cfg',
+                                          'link_kind': to})
                 rule['mode'] = rng.choice([None, None, 'rwxr-x---', 'rw-r-----', 'rw-rw-rw-', 'r--r--r--', 'rwsr-xr-x', 'rwxr-sr-x'])   # (a sticky bit on files is dropped by meson with a deprecation notice: not generated)
                 rule['tag'] = rng.choice(tagset)
             elif kind == 'headers':
@@ -257,7 +264,13 @@ class Check:
                 kw.append(f"install_tag: {q(rule['tag'])}")
             if k == 'data':
                 for f in rule['files']:
+                    if f.get('link_to') is not None:
+                        os.makedirs(os.path.dirname(os.path.join(root, f['name'])), exist_ok=True)
+                        os.symlink(f['link_to'], os.path.join(root, f['name']))
+                        continue
                     mkfile(root, f['name'], IR.content_of(f['name']), f.get('exec', False))
+                if rule.get('follow') is not None:
+                    kw.append(f"follow_symlinks: {'true' if rule['follow'] else 'false'}")
                 if rule.get('dir') is not None:
                     kw.append(f"install_dir: {q(rule['dir'])}")
                 if rule.get('rename'):
@@ -367,7 +380,12 @@ class Check:
         return forkrun(body, capture=os.path.join(root, f'step-{tag}.log'), timeout=200, env=env, cwd=bd, umask=umask)
 
     def _run(self, sc: T.Dict[str, T.Any], root: str) -> T.Dict[str, T.Any]:
-        spec = sc['spec']
+        victim = os.path.join(root, 'victim')
+        os.makedirs(victim)
+        with open(os.path.join(victim, 'victim.cfg'), 'w') as f:
+            f.write('of the user, outside DESTDIR\n')
+        os.chmod(os.path.join(victim, 'victim.cfg'), 0o644)
+        spec = json.loads(json.dumps(sc['spec']).replace('@VICTIM@', victim))
         sd = os.path.join(root, 'src')
         bd = os.path.join(root, 'bd')
         self.write_project(spec, sc.get('have_sub', False), sd)
@@ -427,6 +445,7 @@ class Check:
                 f.write('keep me\n')
             pre = self.snap(destdir)
         outside_before = IR.snapshot(sd)
+        victim_before = IR.snapshot(victim)
         faults: T.Dict[str, int] = {}
         probes: T.Dict[str, int] = {}
 
@@ -555,6 +574,9 @@ class Check:
                                            f'escaped-destdir:{ev["op"]}', **base)
                     if st.get('dry_run') and not is_log:
                         return R.violation('dry-run-wrote', f'step {si}: --dry-run performed {ev["op"]} on {p}', f'dry-run-wrote:{ev["op"]}', **base)
+            if IR.snapshot(victim) != victim_before:
+                return R.violation('escaped-destdir', f'step {si}: a file outside DESTDIR that an installed link points to was changed by `meson {" ".join(argv[:2])}`: '
+                                   f'{victim_before} -> {IR.snapshot(victim)}', 'escaped-destdir:link-target-outside', **base)
             if IR.snapshot(sd) != outside_before:
                 return R.violation('escaped-destdir', f'step {si}: the source tree was modified by `meson {" ".join(argv[:2])}`', 'escaped-destdir:source-tree', **base)
             after = self.snap(destdir)
@@ -688,6 +710,8 @@ class Check:
                     continue
                 if it[0] == 'file' and oc:
                     continue
+                if it[0] == 'link' and oc and p_ in self.copied_links(spec, destdir):
+                    continue           # a link copied from the sources is preserved by --only-changed like a file
                 if p_ not in logged_now:
                     return R.violation('installed-not-logged', f'step {si}: {os.path.relpath(p_, destdir)} ({it[0]}) is specified by the install rules and present, '
                                        f'but the install log written by this step does not name it (uninstall would leave it behind)',
@@ -739,6 +763,15 @@ class Check:
         if got != want:
             return f'TARGET-BAD:{name}:run path {got} instead of {want}'
         return 'TARGET:' + name
+
+    @staticmethod
+    def copied_links(spec: T.Dict[str, T.Any], destdir: str) -> T.Set[str]:
+        out: T.Set[str] = set()
+        for r in spec['rules']:
+            if r['kind'] == 'data' and any(f.get('link_to') is not None for f in r['files']):
+                t = IR.expected_tree({'prefix': spec['prefix'], 'umask': spec['umask'], 'rules': [r]}, destdir, {}, 0o022)
+                out |= {p for p, it in t.items.items() if it[0] == 'link'}
+        return out
 
     @staticmethod
     def ancestors(p: str, stop: str) -> T.List[str]:
